@@ -49,8 +49,39 @@ class Effects:
         self.callsites = {}  # path -> [(bb, term, callee path)] crate calls
         self.closures = {}   # path -> [(bb, idx, closure path)]
         self.summary = {}
+        self._alias_du = {}
         self._scan()
         self._fix()
+
+    def _captures_reach_params(self, body, captures, depth=0):
+        """does any captured variable of a closure body alias state reachable from the enclosing function's parameters
+        (as opposed to a value owned by a local of the enclosing function)"""
+        if not captures:
+            return False
+        parent = self.bodies.get(body.parent)
+        if parent is None or depth > 4:
+            return True
+        du = self._alias_du.get(parent.path)
+        if du is None:
+            du = DefUse(parent)
+            du.follow_accessors = True
+            du.alias_mode = True
+            self._alias_du[parent.path] = du
+        for name in captures:
+            l = parent.local_by_name(name)
+            if l is None:
+                # captured from the grand-parent (nested closure): look there
+                if parent.kind == "Closure":
+                    if self._captures_reach_params(parent, {name}, depth + 1):
+                        return True
+                    continue
+                return True
+            sl = du.slice_local(l, deep=False)
+            if sl.params:
+                return True
+            if sl.captures and self._captures_reach_params(parent, sl.captures, depth + 1):
+                return True
+        return False
 
     def _tags_for_fields(self, fields):
         tags = set()
@@ -84,7 +115,7 @@ class Effects:
                                     du.follow_accessors = True
                                     du.alias_mode = True
                                 root = du.slice_place({"l": pl["l"], "p": []}, deep=False)
-                                if not root.params and not root.captures:
+                                if not root.params and not self._captures_reach_params(b, root.captures):
                                     tags = None   # reference into a local owned value (e.g. a clone being edited)
                             if tags:
                                 evs.append(Event(blk.id, i, tags, fs, "assign " + ".".join(n for _, n in fs), line=s.get("line")))
@@ -122,10 +153,10 @@ class Effects:
                         du.follow_accessors = True
                         du.alias_mode = True
                     sl = du.slice_operand(a, deep=False)
-                    if not sl.params and not sl.captures:
+                    if not sl.params and not self._captures_reach_params(b, sl.captures):
                         continue   # rooted in a local owned value: not a write through a reference into caller state
                     tags = self._tags_for_fields(sl.fields)
-                    for tg in self.classify_type(nty):
+                    for tg in self.classify_type(ty):
                         tags.add(tg)
                     if tags:
                         evs.append(Event(blk.id, None, tags, sorted(sl.fields, key=lambda x: (x[0] or "", x[1])), "call %s on &mut %s" % (last, norm(ty)[5:60]), callee=c or d, line=t.get("line")))
